@@ -1,0 +1,18 @@
+//go:build verif
+
+package sigor
+
+// Contracts for the deductive checker in /verif (comment-only; compiled only under the verif tag).
+
+// OR-proof verification accepts only well-shaped transcripts: one statement, commitment, response and
+// sub-challenge per branch, an outer challenge of the protocol's challenge length, and every sub-challenge of
+// EXACTLY that length (a longer sub-challenge would escape the XOR constraint).
+//@ func (*Protocol).Verify
+//@   property C08
+//@   ensures err == nil ==> len(statement) == p.count && len(commitment) == p.count && len(response.Z) == p.count && len(response.E) == p.count
+//@   ensures err == nil ==> len(challenge) == p.GetChallengeBytesLength()
+//@   ensures err == nil ==> forall t int :: 0 <= t && t < p.count ==> len(response.E[t]) == p.GetChallengeBytesLength()
+//@   loop range(p.count)
+//@     invariant forall t int :: 0 <= t && t < i ==> len(response.E[t]) == p.GetChallengeBytesLength()
+//@   loop range(p.count)#2
+//@     invariant true
